@@ -523,8 +523,9 @@ def get_override_info(cls:model.Class, member_name:str, page_url:Optional[str]=N
         if member_name not in b.contents or model.is_class_private_name(member_name):
             continue
         overridden = b.contents[member_name]
-        yield tags.div(class_="interfaceinfo")(
-            'overrides ', tags.code(epydoc2stan.taglink(overridden, page_url)))
+        if overridden.isVisible:
+            yield tags.div(class_="interfaceinfo")(
+                'overrides ', tags.code(epydoc2stan.taglink(overridden, page_url)))
         break
     
     ocs = sorted(util.overriding_subclasses(cls, member_name), key=util.alphabetical_order_func)
